@@ -2,6 +2,7 @@ package main
 
 import (
 	"fmt"
+	"sort"
 	"go/constant"
 	"go/token"
 	"go/types"
@@ -385,3 +386,5 @@ func posOf(in ssa.Instruction) token.Pos {
 	}
 	return b.Parent().Pos()
 }
+
+func sortStrings(s []string) { sort.Strings(s) }
